@@ -208,6 +208,37 @@ fn sub_chaos(input: &[u8], st: &mut Stats) -> R {
     check_file(&words_to_bytes(&w), st, &|| desc.join("\n"))
 }
 
+/// OpExtInst with every instruction number around the boundaries of the two recognised tables
+/// (and a few far values) on a GLSL.std.450, an OpenCL.std and an unknown import
+fn ext_numbers() -> Vec<u32> {
+    let mut v: Vec<u32> = (0..=96).collect();
+    v.extend(139..=212);
+    v.extend([255, 256, 65535, 65536, 65537, 0x7fff_ffff, 0x8000_0000, u32::MAX - 1, u32::MAX]);
+    v
+}
+fn sub_ext_numbers(input: &[u8], st: &mut Stats) -> R {
+    let k = idx(input) as usize;
+    let nums = ext_numbers();
+    if k >= nums.len() * 3 {
+        return Ok(());
+    }
+    let n = nums[k / 3];
+    let set = ["GLSL.std.450", "OpenCL.std", "NonSemantic.Unknown"][k % 3];
+    let mut w = header_words((1, 3), 20);
+    let mut imp = vec![11u32, 1];
+    imp.extend(str_words(set));
+    imp[0] |= (imp.len() as u32) << 16;
+    w.extend(imp);
+    w.extend([0x0002_0013, 2]); // %2 = OpTypeVoid
+    w.extend([0x0003_0021, 3, 2]); // %3 = OpTypeFunction %2
+    w.extend([0x0005_0036, 2, 4, 0, 3, 0x0002_00f8, 5]);
+    w.extend([0x0007_000c, 2, 6, 1, n, 7, 8]); // %6 = OpExtInst %2 %1 n %7 %8
+    w.extend([0x0001_00fd, 0x0001_0038]);
+    check_file(&words_to_bytes(&w), st, &|| format!("OpExtInst number {} on an import of {:?}", n, set))?;
+    st.count(&format!("ext_set_{}", k % 3));
+    Ok(())
+}
+
 fn sub_fixed(input: &[u8], st: &mut Stats) -> R {
     let k = idx(input);
     let hdr = words_to_bytes(&header_words((1, 0), 0));
@@ -356,6 +387,7 @@ pub const SUBS: &[Sub] = &[
     Sub { name: "files", f: sub_files },
     Sub { name: "output-shapes", f: sub_output_shapes },
     Sub { name: "chaos-files", f: sub_chaos },
+    Sub { name: "ext-inst-numbers", f: sub_ext_numbers },
 ];
 
 pub fn run(ctx: &Ctx) {
@@ -365,6 +397,7 @@ pub fn run(ctx: &Ctx) {
     drive_random(ctx, &SUBS[2], ctx.n(1_500, 300_000), 1400);
     drive_enum(ctx, &SUBS[3], (SHAPE_BASES.len() * SHAPE_OFFS * SHAPE_KINDS) as u64);
     drive_random(ctx, &SUBS[4], ctx.n(800, 200_000), 200);
+    drive_enum(ctx, &SUBS[5], (ext_numbers().len() * 3) as u64);
     let _ = std::fs::remove_dir_all(verif_root().join("target/c20-tmp"));
 }
 
@@ -372,7 +405,7 @@ pub fn finish(ctx: &Ctx) -> i32 {
     crate::engine::finish(
         ctx,
         Finish {
-            rule: "files: generated modules (ordered / interleaved / wild), half of them with 1-3 stacked byte-level faults, raw random bytes, 0-19 byte prefixes of a header, header + junk, loadable modules whose disassembly has a line of every length around each power of two from 256 to 65536 bytes as the last line / in the middle / before a function (2700 files), type-chaos modules (forward references, re-declared ids, constants before their types), and fixed files (empty, 4 bytes, header only, the historical crashers, 64 KiB of OpNop). Oracle: spawn target/dis/release/rspirv-dis <file> (built from /repo's working tree): exit status 0, no panic message on stderr, stdout == disassemble() + newline if load_bytes succeeds in-process, else the Display of the loading error + newline, which must be a single line. non-trivial = file longer than 24 bytes; distinct = hash of the file.",
+            rule: "files: generated modules (ordered / interleaved / wild), half of them with 1-3 stacked byte-level faults, raw random bytes, 0-19 byte prefixes of a header, header + junk, loadable modules whose disassembly has a line of every length around each power of two from 256 to 65536 bytes as the last line / in the middle / before a function (2700 files), OpExtInst with every number around the boundaries of the GLSL.std.450 / OpenCL.std tables on a GLSL, an OpenCL and an unknown import, type-chaos modules (forward references, re-declared ids, constants before their types), and fixed files (empty, 4 bytes, header only, the historical crashers, 64 KiB of OpNop). Oracle: spawn target/dis/release/rspirv-dis <file> (built from /repo's working tree): exit status 0, no panic message on stderr, stdout == disassemble() + newline if load_bytes succeeds in-process, else the Display of the loading error + newline, which must be a single line. non-trivial = file longer than 24 bytes; distinct = hash of the file.",
             assumptions: vec!["the in-process library call is the reference for the text; its own correctness is C07/C03's subject".into()],
             trusted_base: vec!["OS process interface".into(), "cargo build of /repo's rspirv-dis".into()],
         },
